@@ -13,9 +13,10 @@ def to_ir(self: Expression) -> ir.Expression:
 
 @to_ir.register(Integer)
 def to_ir_integer(self: Integer):
-    # This is sensible as long as we only support floating point values and don't support division. If either of those
-    # ceases to be true, this will need to be updated.
-    return ir.IntegerLiteral(self.value)
+    # Tensor values are doubles, so an integer in the assignment is a double constant. Emitting it as
+    # an integer literal of the IR would make it a 32-bit integer in the generated code, which wraps
+    # for literals (or products of literals) beyond the int32 range.
+    return ir.FloatLiteral(float(self.value))
 
 
 @to_ir.register(Float)
